@@ -236,7 +236,11 @@ def main():
     budget = P["budget"][0 if tier == "quick" else 1]
     corpus = props.corpus_cases(prop)
     gen = P["gen"](rng, budget, tier)
-    cases = number(dedup(corpus + gen))
+    # every mode must give the same result however stdin arrives: one generated CLI case in eight is
+    # run a second time with the input served in prescribed pieces (read shim); the model does not
+    # depend on the segmentation, so the twin is decided by the correspondence check
+    twins = props.segmented_twins(rng, gen)
+    cases = number(dedup(corpus + gen + twins))
     model = run_model(drv, [c for c in cases if not c.tags.get("nomodel")])
     # the extracted program against the kernel, on a sample (a larger one in the thorough tier)
     n_kernel, kernel_err = kernel_recheck(cases, model, limit=(40 if tier == "quick" else 400))
@@ -382,6 +386,7 @@ def main():
         "oracle_evaluations": oracle_evals,
         "traces_validated_against_impl": len(cases) - len(disagreements),
         "corpus": len(corpus),
+        "segmented_twins": len(twins),
         "release_build_checked": bool(tuc_rel),
         "exhaustive": False,
     }
